@@ -15,12 +15,12 @@ CONTROLS = os.path.join(extract.VERIF, 'controls')
 
 
 def parse_header(path):
-    meta = {'rule': None, 'expect': None, 'what': ''}
+    meta = {'rule': None, 'expect': None, 'what': '', 'profile': 'dev'}
     for line in open(path):
         if not line.startswith('#'):
             break
         line = line[1:].strip()
-        for k in ('rule', 'expect', 'what'):
+        for k in ('rule', 'expect', 'what', 'profile'):
             if line.startswith(k + ':'):
                 meta[k] = line[len(k) + 1:].strip()
     return meta
@@ -54,13 +54,13 @@ def run_controls(prop, repo='/repo'):
                 skipped.append({'control': name, 'reason': 'patch does not apply to the current tree'})
                 continue
             try:
-                prog_dir, th, info = extract.extract(dst, 'dev', target_dir=os.path.join(extract.CACHE, 'target-scratch-dev'))
+                prog_dir, th, info = extract.extract(dst, meta['profile'], target_dir=os.path.join(extract.CACHE, 'target-scratch-' + meta['profile']))
             except extract.ExtractError as e:
                 skipped.append({'control': name, 'reason': 'patched tree does not build: ' + str(e)[-300:]})
                 continue
             mod = core.load_rules(prop)
             from .db import Program
-            cx = core.run_rules(mod, Program(prog_dir, profile="dev"), 'dev', only_rule=meta['rule'])
+            cx = core.run_rules(mod, Program(prog_dir, profile=meta['profile']), meta['profile'], only_rule=meta['rule'])
             fails = [r for r in cx.records if r['verdict'] == 'fail']
             hit = [r for r in fails if not meta['expect'] or meta['expect'] in (r['function'] + ' ' + r['instance'] + ' ' + r['detail'])]
             if hit:
